@@ -14,11 +14,34 @@ namespace GV.Props.C04
 open GV.CborT GV.Model.MsgCodec GV.Proofs.MsgCodec
 
 /-- Full statement (what the property demands of a decoder `d` for shape `s`):
-    every well-typed value round-trips, and only trees the strict reading
-    accepts are accepted. -/
+    every well-typed value round-trips, and only trees that have the shape the
+    type requires (`conforms`: arity and field kinds, stated without building a
+    value) are accepted. -/
 def C04_full (d : Shape → Cbor → Option Val) : Prop :=
   (∀ s v, hasShape s v = true → d s (encVal v) = some v) ∧
-  (∀ s t v, d s t = some v → decVal Mode.strict s t = some v)
+  (∀ s t v, d s t = some v → conforms s t = true)
+
+/-- The strict reading satisfies the full statement: it round-trips every value and
+    accepts exactly the conforming trees. -/
+theorem strict_full : C04_full (decVal Mode.strict) := by
+  refine ⟨fun s v h => dec_enc Mode.strict s v h, fun s t v h => ?_⟩
+  rw [← strict_iff_conforms s t, h]; rfl
+
+/-- `strict = conforms`: the strict reading accepts a tree iff it has the required shape. -/
+theorem strict_accepts_iff_conforms (s : Shape) (t : Cbor) :
+    (decVal Mode.strict s t).isSome = conforms s t := strict_iff_conforms s t
+
+/-- The code as it is accepts everything that has the required shape, with the same value
+    (the silent conversions only ever *add* accepted inputs). -/
+theorem strict_imp_lax (s : Shape) (t : Cbor) (v : Val) (h : decVal Mode.strict s t = some v) :
+    decVal Mode.lax s t = some v := strict_lax s t v h
+
+theorem conforms_imp_lax (s : Shape) (t : Cbor) (h : conforms s t = true) :
+    ∃ v, decVal Mode.lax s t = some v := by
+  rw [← strict_iff_conforms s t] at h
+  cases hv : decVal Mode.strict s t with
+  | none => rw [hv] at h; cases h
+  | some v => exact ⟨v, strict_lax s t v hv⟩
 
 /-- Round trip, tree level: every value a constructor can build (of ANY shape)
     decodes back to itself, under the code-as-is reading and under the strict one. -/
@@ -93,9 +116,8 @@ theorem lax_witness :
 theorem C04_witness : ¬ C04_full (decVal Mode.lax) := by
   intro h
   have h2 := h.2 (.fixed 4) (.str false .w0 [1, 2]) (.h [1, 2, 0, 0]) rfl
-  have h3 : decVal Mode.strict (.fixed 4) (.str false .w0 [1, 2]) = none := rfl
-  rw [h3] at h2
-  cases h2
+  revert h2
+  decide
 
 /-- Strict arity: a toarray struct takes exactly one item per field. -/
 theorem struct_arity (m : Mode) (fs : List Shape) (xs : List Cbor) (vs : List Val)
